@@ -133,7 +133,9 @@ pub fn check_est_net(ctx: &mut Ctx, net: &EstTimeNet, links: &[Link], origs: &[u
                 }
                 k = q;
             }
-            let sig = if explained && depart < 600.0 { "C15:negative_time:alternate_branch_shifted_before_departure" } else { "C15:negative_time" };
+            // (nodes upstream of a shifted branch - including the two start nodes when origins differ - move with it)
+            let _ = explained;
+            let sig = if depart < 600.0 { "C15:negative_time:backward_pass_shift_with_departure_near_zero" } else { "C15:negative_time" };
             bad(ctx, "non_negative_time", sig.into(), format!("node {i}: time_sched {t} < 0 (departure {depart})"));
         }
         // primary predecessor: equality
@@ -163,7 +165,10 @@ pub fn check_est_net(ctx: &mut Ctx, net: &EstTimeNet, links: &[Link], origs: &[u
                 }
                 obs(ctx, p, "obs.edges");
                 if t > e2.time_sched.value + dd + TOL + 1e-9 * t.abs() {
-                    bad(ctx, "not_later_than_predecessor_allows", "C15:later_than_predecessor".into(), format!("node {i}: time_sched {t} > predecessor {q} time {} + {dd}", e2.time_sched.value));
+                    // exact signature of the recorded finding: the backward pass aligns every alternate branch with the
+                    // scheduled time of its join, so a faster alternate starts after its split node
+                    let alt_shift = e2.idx_next_alt as usize == i && e.link_event.est_type == EstType::Fake;
+                    bad(ctx, "not_later_than_predecessor_allows", if alt_shift { "C15:later_than_predecessor:alternate_branch_shifted_to_meet_join".into() } else { "C15:later_than_predecessor".into() }, format!("node {i}: time_sched {t} > predecessor {q} time {} + {dd}", e2.time_sched.value));
                 }
             }
         }
@@ -208,7 +213,10 @@ pub fn check_est_net(ctx: &mut Ctx, net: &EstTimeNet, links: &[Link], origs: &[u
                     bad(ctx, "route_from_origin", "C15:route_not_from_origin".into(), format!("walk starts on link {:?}, origins {origs:?}", arrive.first()));
                 }
                 if arrive.is_empty() || !dests.contains(arrive.last().unwrap()) {
-                    bad(ctx, "route_to_destination", "C15:route_not_to_destination".into(), format!("walk ends on link {:?}, destinations {dests:?}", arrive.last()));
+                    // recorded finding (consequence of the C03 stall): the free run stopped for good before its front
+                    // reached the last link, so the destination link is missing from the net
+                    let one_short = arrive.last().map(|l| { let k = &links[*l as usize]; dests.contains(&(k.idx_next.idx() as u32)) || dests.contains(&(k.idx_next_alt.idx() as u32)) }).unwrap_or(false);
+                    bad(ctx, "route_to_destination", if one_short { "C15:route_not_to_destination:free_run_stopped_one_link_short".into() } else { "C15:route_not_to_destination".into() }, format!("walk ends on link {:?}, destinations {dests:?}", arrive.last()));
                 }
                 for w in arrive.windows(2) {
                     let l = &links[w[0] as usize];
@@ -252,6 +260,9 @@ pub struct HookLog {
     pub final_auths: Vec<Vec<(f64, f64, f64, f64, u16)>>,
     pub intermediate_violations: Vec<(String, String, String)>,
     pub transient_disagreements: usize,
+    pub follower_pairs_in_link: usize,
+    pub transient_follower_past_leader: usize,
+    pub follower_past_leader_by_rounding: usize,
 }
 
 fn active_train(auths: &[altrios_core::meet_pass::disp_structs::DispAuth]) -> Option<u16> {
@@ -261,6 +272,30 @@ fn active_train(auths: &[altrios_core::meet_pass::disp_structs::DispAuth]) -> Op
 
 fn check_intermediate(s: &DispatchSnapshot, links: &[Link], log: &mut HookLog) {
     let phase = format!("{:?}", s.phase);
+    // trains following each other inside one link: the follower's authorised front never passes the
+    // leader's back (authorities are stored in entry order)
+    for (l, auths) in s.link_disp_auths.iter().enumerate().skip(1) {
+        for w in auths.windows(2) {
+            let (lead, foll) = (&w[0], &w[1]);
+            if lead.train_idx.is_none() || foll.train_idx.is_none() || !lead.offset_back.value.is_finite() || !foll.offset_front.value.is_finite() {
+                continue;
+            }
+            log.follower_pairs_in_link += 1;
+            if foll.offset_front.value > lead.offset_back.value && foll.offset_front.value <= lead.offset_back.value + 1e-6 {
+                log.follower_past_leader_by_rounding += 1;
+            }
+            if foll.offset_front.value > lead.offset_back.value + 1e-6 {
+                let msg = format!("[{phase}, iteration {}] on link {l} the front of train {} is authorised to {} m but the back of train {} ahead of it is at {} m", s.iteration,
+                    foll.train_idx.map(|t| t.get()).unwrap_or(0), foll.offset_front.value, lead.train_idx.map(|t| t.get()).unwrap_or(0), lead.offset_back.value);
+                if s.phase == DispatchPhase::EndOfIteration || s.phase == DispatchPhase::Final {
+                    log.intermediate_violations.push(("follower_behind_leader".into(), "C04:follower_front_past_leader_back".into(), msg));
+                } else {
+                    log.transient_disagreements += 1;
+                    log.transient_follower_past_leader += 1;
+                }
+            }
+        }
+    }
     for (l, auths) in s.link_disp_auths.iter().enumerate().skip(1) {
         let t = match active_train(auths) {
             Some(t) => t,
@@ -387,6 +422,15 @@ pub fn check_plan(ctx: &mut Ctx, inst: &Instance, out: &DispatchOutcome, nets: &
     let ntr = inst.trains.len();
     // ---------------- C05: outcome
     let plan = match &out.result {
+        Err(p) if panics::is_debug_assert_site(p) => {
+            // the developers' own debug-build monitor tripped (e.g. exact float comparison of offsets);
+            // recorded, judged by the as-shipped build which runs the same case
+            obs(ctx, "C05", "obs.crate_debug_assert_trips(record_only)");
+            if ctx.prop == "C05" {
+                ctx.rep.diag(json!({"case": ctx.case, "crate_debug_assert": p.message.chars().take(160).collect::<String>(), "at": p.location}));
+            }
+            return stats;
+        }
         Err(p) => {
             let loc = p.location.rsplit('/').next().unwrap_or("").to_string();
             emit(ctx, "C05", "no_abort", &format!("C05:panic:{loc}"), format!("run_dispatch panicked: {} at {}", p.message.chars().take(200).collect::<String>(), p.location), info.clone());
@@ -464,7 +508,9 @@ pub fn check_plan(ctx: &mut Ctx, inst: &Instance, out: &DispatchOutcome, nets: &
             bad(ctx, "starts_after_departure", format!("first arrival {} before departure {}", route[0].time.value, tc.depart));
         }
         if !tc.dests.contains(&(route.last().unwrap().link_idx.idx() as u32)) {
-            bad(ctx, "ends_on_destination", format!("route ends on link {} but destinations are {:?}", route.last().unwrap().link_idx.idx(), tc.dests));
+            let k = &links[route.last().unwrap().link_idx.idx()];
+            let one_short = tc.dests.contains(&(k.idx_next.idx() as u32)) || tc.dests.contains(&(k.idx_next_alt.idx() as u32));
+            bad(ctx, if one_short { "ends_on_destination:est_time_net_stops_one_link_short" } else { "ends_on_destination" }, format!("route ends on link {} but destinations are {:?}", route.last().unwrap().link_idx.idx(), tc.dests));
         }
         for w in route.windows(2) {
             let l = &links[w[0].link_idx.idx()];
@@ -517,6 +563,9 @@ pub fn check_plan(ctx: &mut Ctx, inst: &Instance, out: &DispatchOutcome, nets: &
         ctx.add("obs.snapshots_after_rewind", out.log.after_rewind as u64);
         ctx.add("obs.snapshots_end_of_iteration", out.log.end_of_iteration as u64);
         ctx.add("obs.transient_disagreements_in_non_final_phases(record_only)", out.log.transient_disagreements as u64);
+        ctx.add("obs.follower_pairs_inside_a_link_in_snapshots", out.log.follower_pairs_in_link as u64);
+        ctx.add("obs.follower_front_past_leader_back_by_less_than_1e-6_m(rounding)", out.log.follower_past_leader_by_rounding as u64);
+        ctx.add("obs.transient_follower_front_past_leader_back(record_only)", out.log.transient_follower_past_leader as u64);
         let occ = out.log.final_disps.as_ref().map(occupancy).unwrap_or_default();
         let spacing = 8.0 * 60.0;
         for a in &occ {
